@@ -4535,7 +4535,15 @@ impl<'a> Assignment<'a> {
                             ))
                         })?,
                         ArgType::String => DataValue::String(value.to_string()),
-                        _ => unreachable!("argtype should not occur"),
+                        _ => {
+                            return Err(StamError::QuerySyntaxError(
+                                format!(
+                                    "Unsupported value in assignment: '{}' (type {:?})",
+                                    value, valuetype
+                                ),
+                                "",
+                            ))
+                        }
                     }
                 };
                 Self::Data { set, key, value }
